@@ -43,7 +43,7 @@ def main():
             env = dict(os.environ, VERIF_OVERLAY=ov, VERIF_NO_EVIDENCE="1")
             p = subprocess.run([os.path.join(V, "check"), pid, "--tier", tier], env=env, stdout=subprocess.PIPE,
                                stderr=subprocess.STDOUT, text=True)
-            viol = [l for l in p.stdout.splitlines() if l.startswith("VIOLATION")]
+            viol = [l for l in p.stdout.splitlines() if l.startswith("VIOLATION") or l.startswith("EXTRA-FINDING")]
             got = "VIOLATION" if (p.returncode == 1 and viol) else ("INCONCLUSIVE" if p.returncode == 2 else "PASS")
             exp = m.get("expect", "VIOLATION")
             results.append((name, got, exp))
